@@ -71,6 +71,7 @@ def run_shard(params, rec):
     g_mk_loc = X.HGen(rng, widths=X.WIDTHS_256, max_width=256, loc=0.15)
     tpy = TranslatorPython()
     slow_evals = [0]
+    big_shift = [False]
     tmk = TranslatorMiasm()
     mk_ns = dict((k, getattr(m2, k)) for k in ("ExprInt", "ExprId", "ExprMem", "ExprOp", "ExprSlice",
                                                "ExprCompose", "ExprCond", "ExprAssign"))
@@ -122,7 +123,7 @@ def run_shard(params, rec):
         try:
             return eval(code, ns)
         finally:
-            if time.process_time() - t0 > 0.05:
+            if big_shift[0] and time.process_time() - t0 > 0.004:
                 slow_evals[0] += 1     # CPU time; only bounds the cost, never decides a verdict
 
     def describe(s, env):
@@ -229,10 +230,11 @@ def run_shard(params, rec):
                 rec.count("py:mem_wrap_skipped")
                 continue
             worst = shift_class(e, env) if '<<' in ops else 0
+            big_shift[0] = bool(worst)
             if worst:
-                if slow_evals[0] >= 20:
+                if slow_evals[0] >= 40:
                     # the source really builds 2^count-bit integers (already reported): stop paying for it
-                    rec.count("py:shift_count>=2^24_skipped_after_20_slow_evaluations")
+                    rec.count("py:shift_count>=2^24_skipped_after_40_slow_evaluations")
                     continue
                 rec.count("py:shift_count>=2^24_evaluated")
             try:
